@@ -35,7 +35,6 @@ Proof.
     + pose proof (zmul_le lo hi k Hlh Hk j2 i1 ltac:(lia)) as P. fold c in P. lra.
     + pose proof (zmul_le lo hi k Hlh Hk (i2 + 1) j1 ltac:(lia)) as P. fold c in P.
       rewrite inject_Z_plus in P. change (inject_Z 1) with 1 in P. lra.
-    + pose proof (zmul_le lo hi k Hlh Hk j2 i1 ltac:(lia)) as P. fold c in P. lra.
   - intro H.
     pose proof (zmul_le lo hi k Hlh Hk j1 i2 ltac:(lia)) as P1. fold c in P1.
     pose proof (zmul_le lo hi k Hlh Hk (i1 + 1) j2 ltac:(lia)) as P2. fold c in P2.
@@ -64,13 +63,10 @@ Proof.
   exists (Z.max j1 i1 - i1)%Z, (Z.min j2 (i2 + 1) - i1)%Z. split; [lia|].
   rewrite Cn. split.
   - destruct (Z.max_spec j1 i1) as [[L ->] | [L ->]].
-    + assert (P : min_val <= slo).
-      { pose proof (zmul_le lo hi k Hlh Hk i1 j1 ltac:(lia)) as P. fold c in P.
+    + assert (P : slo <= min_val).
+      { pose proof (zmul_le lo hi k Hlh Hk j1 i1 ltac:(lia)) as P. fold c in P.
         unfold min_val, step, s1. lra. }
-      rewrite (Q.max_r _ _ P). assert (Z0 : inject_Z (i1 - i1) == 0) by (rewrite Z.sub_diag; reflexivity).
-      rewrite Z0. unfold min_val, step, s1. rewrite E1. unfold Z.sub. ring_simplify. 
-      pose proof (zmul_le lo hi k Hlh Hk j1 i1 ltac:(lia)) as P1. fold c in P1.
-      pose proof (zmul_le lo hi k Hlh Hk i1 j1 ltac:(lia)) as P2. fold c in P2. lra.
+      rewrite (Q.max_l _ _ P). rewrite Z.sub_diag. change (inject_Z 0) with 0. ring.
     + assert (P : min_val <= slo).
       { pose proof (zmul_le lo hi k Hlh Hk i1 j1 ltac:(lia)) as P. fold c in P.
         unfold min_val, step, s1. lra. }
